@@ -178,6 +178,8 @@ pub fn rfc_layout(want: &RtcpPacket, b: &[u8]) -> Option<String> {
 /// be what the RFC puts at that octet offset. Independent of the stack's parser and of the Lean model.
 pub fn rfc_fields_of_parsed(p: &RtcpPacket, b: &[u8]) -> Option<String> {
     let pad = if b[0] & 0x20 != 0 { b[b.len() - 1] as usize } else { 0 };
+    // (a packet whose P bit is set and whose count octet is 0 or exceeds the body is invalid: RFC 3550 §6.4.1 / App. A.2)
+    if b[0] & 0x20 != 0 && (pad == 0 || pad > b.len() - 4) { return Some("parsed although the padding count is invalid".into()); }
     let end = b.len() - pad;                       // content ends here
     let cnt = (b[0] & 0x1F) as usize;
     let bad = |w: &str| Some(w.to_string());
@@ -859,7 +861,13 @@ pub fn exec(run: &mut Run, case: &str) -> (String, String, String, Fails) {
 }
 
 fn emit(run: &mut Run, case: String, nontrivial_hint: bool) {
-    let (stream, input, out, fails) = exec(run, &case);
+    // a panic anywhere in a case (implementation or the oracles' own indexing of implementation output) must surface as a
+    // failing INPUT with a replay, never as a crashed run
+    let (stream, input, out, fails) = match catch(std::panic::AssertUnwindSafe(|| exec(run, &case))) {
+        Ok(r) => r,
+        Err(p) => { let (st, inp) = case.split_once(' ').unwrap_or((case.as_str(), ""));
+            (st.to_string(), inp.to_string(), "panic".to_string(), vec![(format!("panic:case:{st}"), p)]) }
+    };
     run.count(&format!("stream:{stream}"));
     let cls = if out.starts_with("ok") || out.starts_with("some") { "ok" } else if out.starts_with("err") { "err" }
               else if out.starts_with("panic") { "panic" } else { "val" };
@@ -994,10 +1002,15 @@ pub fn run(args: &Args) {
             if i % 5 == 0 && b.len() >= 8 {
                 // RTCP padding on the last packet: P bit, k bytes, count in the last byte
                 let mut v = b.clone(); let k = 4 * rng.range(1, 3) as usize;
-                let mut off = 0; loop { let l = (u16::from_be_bytes([v[off + 2], v[off + 3]]) as usize + 1) * 4; if off + l >= v.len() { break; } off += l; }
-                v[off] |= 0x20; let words = u16::from_be_bytes([v[off + 2], v[off + 3]]) as usize + k / 4;
-                if words <= 65535 { v[off + 2] = (words >> 8) as u8; v[off + 3] = words as u8; for _ in 1..k { v.push(0); } v.push(k as u8);
-                    emit(&mut run, format!("rtcp_parse {}", hex(&v)), true); run.count("rtcp_padded"); }
+                // … on the last packet or (every other time) on the first one of a compound of several: padding is a property of
+                // the individual packet, a receiver honours the P bit wherever the packet sits (this stack pads TWCC in place)
+                let first = i % 10 == 0;
+                let mut off = 0; if !first { loop { let l = (u16::from_be_bytes([v[off + 2], v[off + 3]]) as usize + 1) * 4; if off + l >= v.len() { break; } off += l; } }
+                let l = (u16::from_be_bytes([v[off + 2], v[off + 3]]) as usize + 1) * 4;
+                let words = u16::from_be_bytes([v[off + 2], v[off + 3]]) as usize + k / 4;
+                if words <= 65535 && v[off] & 0x20 == 0 { v[off] |= 0x20; v[off + 2] = (words >> 8) as u8; v[off + 3] = words as u8;
+                    let mut padb = vec![0u8; k - 1]; padb.push(k as u8); let tail = v.split_off(off + l); v.extend(padb); v.extend(tail);
+                    emit(&mut run, format!("rtcp_parse {}", hex(&v)), true); run.count(if first && off + l + k < v.len() { "rtcp_padded_not_last" } else { "rtcp_padded" }); }
             }
         }
         // the reference's serialisation of the same logical packets
